@@ -66,7 +66,9 @@ package pipeline
 //@ modifies any(caching.MetadataCache), any(providers.SyncedProvider)
 //@ extern github.com/gopher-fleece/gleece/v2/graphs/symboldg.SymbolGraphBuilder.Enums
 //@ ensures true
-//@ func GleecePipeline.Graph trusted
+//@ func GleecePipeline.Graph props C14
+//@ requires p != nil
+//@ ensures result == p.symGraph
 //@ func GleecePipeline.getModels props C13,C14
 //@ requires p != nil && p.symGraph != nil
 //@ modifies any(caching.MetadataCache), any(providers.SyncedProvider)
